@@ -580,8 +580,8 @@ def derived_attributes(ck, rule):
     seen = set()
     for pf in fpaths(prog, f):
         for st in pf.stores:
-            if st.path != "self.real" or st.depth:
-                continue
+            if st.path != "self.real":
+                continue              # (at any inlining depth: stages split off set_val are part of it)
             n += 1
             v = st.raw_value
 
